@@ -49,6 +49,8 @@ type cafsCase struct {
 	Chunks     []string     `json:"chunks"`
 	WriterTo   bool         `json:"writerto"`
 	ReaderMode int          `json:"readermode"`
+	EOFData    bool         `json:"eofdata"` // the source hands its last bytes over together with io.EOF
+	Warm       bool         `json:"warm"`    // an instance reads the object before the damage and is probed again after it
 	Prefetch   int          `json:"prefetch"`
 	Flushes    int          `json:"flushes"`
 	CacheBytes int          `json:"cache"`
@@ -98,7 +100,10 @@ func (p *pyRef) key(L int, data []byte) string {
 }
 
 // chunkSource hands the content to io.Copy in the given chunks.
-type chunkSource struct{ chunks [][]byte }
+type chunkSource struct {
+	chunks  [][]byte
+	eofData bool // the last bytes are handed over together with io.EOF
+}
 
 func (c *chunkSource) Read(p []byte) (int, error) {
 	for len(c.chunks) > 0 && len(c.chunks[0]) == 0 {
@@ -109,6 +114,16 @@ func (c *chunkSource) Read(p []byte) (int, error) {
 	}
 	n := copy(p, c.chunks[0])
 	c.chunks[0] = c.chunks[0][n:]
+	if c.eofData && len(c.chunks[0]) == 0 {
+		rest := 0
+		for _, x := range c.chunks[1:] {
+			rest += len(x)
+		}
+		if rest == 0 {
+			c.chunks = nil
+			return n, io.EOF
+		}
+	}
 	return n, nil
 }
 
@@ -198,7 +213,7 @@ func cafsRun(cs *cafsCase, py *pyRef) {
 	fs := cafsFs(cs, st)
 	var res cafs.PutRes
 	cs.PutClass = guarded(10*time.Second, func() error {
-		var src io.Reader = &chunkSource{chunks: chunks}
+		var src io.Reader = &chunkSource{chunks: chunks, eofData: cs.EOFData}
 		if cs.WriterTo {
 			src = bytes.NewReader(content)
 		}
@@ -211,6 +226,20 @@ func cafsRun(cs *cafsCase, py *pyRef) {
 	}
 	cs.Written, cs.Key, cs.Keys, cs.Found = res.Written, res.Key.String(), hex.EncodeToString(res.Keys), res.Found
 	cs.After = dumpStore(st)
+	// an instance that has read the whole object while it was intact
+	var fsWarm cafs.Fs
+	if cs.Warm {
+		fsWarm = cafsFs(cs, st)
+		_ = guarded(10*time.Second, func() error {
+			r, err := fsWarm.Get(context.Background(), res.Key)
+			if err != nil {
+				return err
+			}
+			defer r.Close()
+			_, err = io.Copy(io.Discard, struct{ io.Reader }{r})
+			return err
+		})
+	}
 	for _, d := range cs.Damage {
 		if d.Data == nil {
 			st.Remove(d.Key)
@@ -222,8 +251,13 @@ func cafsRun(cs *cafsCase, py *pyRef) {
 	for i := range cs.Probes {
 		p := &cs.Probes[i]
 		fsr := cafsFs(cs, st) // cold caches for every probe
+		kind := p.Kind
+		if strings.HasPrefix(kind, "warm") && fsWarm != nil {
+			fsr = fsWarm // ... but for the probes of the instance that knew the object intact
+			kind = map[string]string{"warmseq": "seq", "warmat": "at"}[kind]
+		}
 		var out []byte
-		switch p.Kind {
+		switch kind {
 		case "seq":
 			p.Class = guarded(10*time.Second, func() error {
 				r, err := fsr.Get(context.Background(), res.Key)
@@ -360,6 +394,10 @@ func cafsCoq(cs *cafsCase) string {
 			probes[i] = fmt.Sprintf("PSeq [%s]%%nat %s %s", strings.Join(bufs, ";"), orc, obs(p))
 		case "at":
 			probes[i] = fmt.Sprintf("PAt %d%%nat %d%%nat %s", p.Off, p.N, obs(p))
+		case "warmseq":
+			probes[i] = "PWarmSeq " + obs(p)
+		case "warmat":
+			probes[i] = fmt.Sprintf("PWarmAt %d%%nat %d%%nat %s", p.Off, p.N, obs(p))
 		case "wtat":
 			probes[i] = "PWriteToAt " + obs(p)
 		case "wt":
@@ -607,7 +645,7 @@ func cafsProp(prop string) propFn {
 		leafSizes := []int{64, 64, 65, 100, 128}
 		var history [][2]string // blob store carried from case to case (C02 histories, C03 foreign blobs)
 		c.Rule = map[string]string{
-			"C01": "contents of 0..6 leaves (boundaries +-1, identical leaves), leaf sizes 64..128 in the evaluated cases, chunkings {WriterTo single write, single read, 1-byte, fixed k, random incl. > leaf}, stream modes {bulk, 1 byte per call, EOF with data}, prefetch 0..3, Read with many buffer-size sequences, ReadAt over a boundary grid incl. past EOF, both WriteTo paths; non-trivial = Put succeeded with at least one leaf, distinct by key+chunking",
+			"C01": "contents of 0..6 leaves (boundaries +-1, identical leaves), leaf sizes 64..128 in the evaluated cases, chunkings {WriterTo single write, single read, 1-byte, fixed k, random incl. > leaf}, sources that signal the end with their last bytes or with a separate read, stream modes {bulk, 1 byte per call, EOF with data}, prefetch 0..3, Read with many buffer-size sequences, ReadAt over a boundary grid incl. past EOF, both WriteTo paths; non-trivial = Put succeeded with at least one leaf, distinct by key+chunking",
 			"C02": "histories of Puts into one shared blob store (same content again, contents sharing leaves, prefixes of earlier contents), flush concurrency 1..16; keys compared three ways: implementation, Gallina BLAKE2b tree model, Python hashlib; non-trivial = Put with at least one leaf, distinct by key",
 			"C03": "every kind of single-blob damage (bit flip at boundary/random positions, truncation, emptying, deletion, swap with a leaf of the same or of another object, root blob replaced by another object's root blob, appended bytes) on objects of 1..6 leaves, observed through Read, ReadAt and both WriteTo paths with cold caches; non-trivial = damaged case with at least one leaf, distinct by key+damage",
 		}[prop]
@@ -631,7 +669,7 @@ func cafsProp(prop string) propFn {
 				}
 			}
 			chunks, wt := cafsChunking(r, content, L)
-			cs := &cafsCase{L: L, WriterTo: wt, ReaderMode: r.Intn(4), Prefetch: r.Intn(4), Flushes: []int{1, 2, 10, 16}[r.Intn(4)]}
+			cs := &cafsCase{L: L, WriterTo: wt, EOFData: r.Bool(), ReaderMode: r.Intn(4), Prefetch: r.Intn(4), Flushes: []int{1, 2, 10, 16}[r.Intn(4)]}
 			if r.Chance(1, 3) {
 				cs.CacheBytes = L * r.Range(1, 4)
 			}
@@ -677,6 +715,11 @@ func cafsProp(prop string) propFn {
 				cs.Damage = cafsDamages(r, probe, foreign)
 				cs.Probes = []cafsProbe{{Kind: "seq", Bufs: []int{[]int{1, L, 2*L + 1, 17}[r.Intn(4)]}}, {Kind: "wtat"}, {Kind: "wt"},
 					{Kind: "at", Off: 0, N: len(content) + 3}, {Kind: "at", Off: r.Intn(len(content) + 1), N: r.Range(1, 2*L)}}
+				if r.Bool() { // the same reads again through an instance that read the object before it was damaged
+					cs.Warm = true
+					cs.Probes = append(cs.Probes, cafsProbe{Kind: "warmseq", Bufs: []int{4096}}, cafsProbe{Kind: "warmat", Off: r.Intn(len(content) + 1), N: r.Range(1, 2*L)},
+						cafsProbe{Kind: "warmseq", Bufs: []int{[]int{1, L, 17}[r.Intn(3)]}})
+				}
 				cafsRun(cs, py)
 				if i%3 == 0 && cs.PutClass == "ok" {
 					history = probe.After
